@@ -321,7 +321,7 @@ func (ex *Exec) zero(t types.Type) Value {
 		if u.Kind() == types.UnsafePointer {
 			return PtrVal{}
 		}
-		if u.Kind() == types.UntypedNil {
+		if u.Kind() == types.UntypedNil || u.Kind() == types.Invalid {
 			return nil
 		}
 		panic("zero: basic " + u.String())
